@@ -174,9 +174,20 @@ def clauses():
     need([a.arg for a in f.args.args] == ["metrics", "config"], "evaluate_metrics signature")
     b = body_of(f)
     need(len(b) >= 2 and u(b[0]) == "issues = []" and u(b[-1]) == "return issues", "evaluate_metrics: issues = [] ... return issues")
-    out = []
+    out, links = [], []
+    # an `if` starts a chain; each `elif` continues it (its test is only evaluated when no earlier test of the chain held); no `else`
+    flat = []
     for st in b[1:-1]:
-        need(isinstance(st, ast.If) and not st.orelse and len(st.body) == 1, f"evaluate_metrics: unexpected statement {u(st)[:60]}")
+        chained = False
+        while True:
+            need(isinstance(st, ast.If) and len(st.body) == 1, f"evaluate_metrics: unexpected statement {u(st)[:60]}")
+            flat.append((st, chained))
+            if not st.orelse:
+                break
+            need(len(st.orelse) == 1 and isinstance(st.orelse[0], ast.If), f"evaluate_metrics: `else` branch {u(st.orelse[0])[:60]}")
+            st, chained = st.orelse[0], True
+    for st, chained in flat:
+        links.append("true" if chained else "false")
         t = st.test
         text = coq_list(_issue_text(st.body[0]))
         if isinstance(t, ast.Compare):
@@ -186,7 +197,7 @@ def clauses():
             out.append(f"CFlag {coq_string(_config_attr(t.values[0]))} {coq_string(_metric_key(t.values[1]))} {text}")
         else:
             raise Unsupported(f"evaluate_metrics: unsupported test {u(t)[:60]}")
-    return defn("srp_clauses", "list clause", coq_list(out))
+    return defn("srp_clauses", "list clause", coq_list(out)) + defn("srp_clause_links", "list bool", coq_list(links))
 
 
 # ---------------------------------------------------------------- violation_builder.py / linter.py
